@@ -1,4 +1,10 @@
 -- Root of the SfwModel library.
 import SfwModel.Model.Util
 import SfwModel.Model.Env
+import SfwModel.Model.Match
+import SfwModel.Model.Sha256
+import SfwModel.Model.Store
+import SfwModel.Props.C05
+import SfwModel.Props.C08
 import SfwModel.Props.C15
+import SfwModel.Props.C19
